@@ -318,7 +318,7 @@ var c11Engine = &engine{
 	prop: "C11", sub: "c11",
 	total: func(tier string) uint64 {
 		if tier == "thorough" {
-			return 3 * mod24 // every start state once per observation mode
+			return 6 * mod24 // every start state twice per observation mode, a different seeded history each time
 		}
 		return 1 << 16
 	},
@@ -378,7 +378,7 @@ func checkC11(tier string, seed uint64) int {
 			"evaluations":         res.histories,
 			"distinct_nontrivial": res.distinct,
 			"rule": "one seeded operation history (8-44 steps over Set/SetSQN/SetOverflow/AddOne/Get/SQN/Overflow, 1-3 interleaved instances; every 64th history is a long-run history with bursts of 255..131k increments; state 0 is also entered as the zero value without Set) per start state; " +
-				"thorough enumerates every one of the 2^24 start states three times (once per observation mode, different seeded history each time), quick draws 2^16 boundary-biased ones; non-trivial = the history crosses a 255->0 sequence-number carry " +
+				"thorough enumerates every one of the 2^24 start states six times (twice per observation mode, a different seeded history each time), quick draws 2^16 boundary-biased ones; non-trivial = the history crosses a 255->0 sequence-number carry " +
 				"or the 2^24-1->0 wrap at least once; distinct = distinct start states among those",
 			"samples":                 samples,
 			"exhaustive_start_states": exhaustive,
